@@ -572,7 +572,13 @@ func ParsePKCS8(der []byte) (*PrivInfo, error) {
 			return nil, fmt.Errorf("ec private key: unknown curve %q", coid)
 		}
 		curve := cf()
+		if v, err := derInt(p[0]); err != nil || v.Int64() != 1 {
+			return nil, fmt.Errorf("ec private key: version is not 1")
+		}
 		d := new(big.Int).SetBytes(p[1].Content)
+		if d.Sign() <= 0 || d.Cmp(curve.Params().N) >= 0 {
+			return nil, fmt.Errorf("ec private key: scalar is not in [1, n-1]")
+		}
 		bl := (curve.Params().BitSize + 7) / 8
 		sc := make([]byte, (curve.Params().N.BitLen()+7)/8)
 		d.FillBytes(sc)
